@@ -1,11 +1,12 @@
 import Qryn.Sql.SegsOf
+import Qryn.LogQL.ProcessFormat
 /-! The SQL objects of `| line_format` and `| label_format` in reader/logql/logql_transpiler_v2/clickhouse_planner
     (planner_line_format.go, planner_label_format.go, sql_misc.go `sqlFormat` / `sqlMapInit` / `sqlMapUpdate`), as segment
     lists: raw text written by `fmt.Sprintf`, and the string leaves that go through `sql.NewStringVal`.
 
     `LineFormatPlanner.ProcessTpl` parses the template with text/template (environment: the harness hands over the nodes in
-    the order `visitNodes` meets them) and builds `formatStr` — the TEXT nodes verbatim, `{n}` for the n-th FIELD node — and
-    `args`: one custom column `labels[<Ident[0]>]` per field node, the name through `NewStringVal`. `sqlFormat.String`
+    the order `visitNodes` meets them: `TplNode` of LogQL/ProcessFormat.lean, C14's model of the same code) and builds `formatStr` (`fmtText`) — the TEXT nodes verbatim, `{n}` for the n-th FIELD node — and
+    `args` (`fmtArgs`): one custom column `labels[<Ident[0]>]` per field node, the name through `NewStringVal`. `sqlFormat.String`
     writes `format(<NewStringVal(formatStr)>, <args joined by ", ">)`.
 
     `LabelFormatPlanner.Process`: `mapUpdate(<labels>, ([k₀,…],[v₀,…])::Map(String, String))` with `kᵢ = NewStringVal(name)`
@@ -16,24 +17,6 @@ import Qryn.Sql.SegsOf
 namespace Qryn.LogQL
 open Qryn Qryn.Sql
 
-/-- what `LineFormatPlanner.node` looks at: a text node or a field node `{{.name…}}` (first identifier) -/
-inductive TplNode
-  | text (t : Bytes)
-  | field (name : Bytes)
-deriving DecidableEq, Repr
-
-/-- `formatStr` after `ProcessTpl`; `n` = number of arguments collected so far -/
-def tplFormat : Nat → List TplNode → Bytes
-  | _, [] => []
-  | n, .text t :: rest => t ++ tplFormat n rest
-  | n, .field _ :: rest => b "{" ++ natDigits n ++ b "}" ++ tplFormat (n + 1) rest
-
-/-- the label names of `args` -/
-def tplArgs : List TplNode → List Bytes
-  | [] => []
-  | .text _ :: rest => tplArgs rest
-  | .field name :: rest => name :: tplArgs rest
-
 /-- the custom column `labels[<name>]` of `fieldNode` and of a `label_format` rename -/
 def labelRefSegs (name : Bytes) : List Seg := [.raw (b "labels["), .str name, .raw (b "]")]
 
@@ -43,7 +26,7 @@ def sqlFormatSegs (fmt : Bytes) (args : List (List Seg)) : List Seg :=
 
 /-- the object `LineFormatPlanner.Process` puts in the `string` column -/
 def lineFormatSegs (tpl : List TplNode) : List Seg :=
-  sqlFormatSegs (tplFormat 0 tpl) ((tplArgs tpl).map labelRefSegs)
+  sqlFormatSegs (fmtText 0 tpl) ((fmtArgs tpl).map labelRefSegs)
 
 /-- one operation of `| label_format`: `name=src` or `name="template"` (nodes of the unquoted constant) -/
 inductive LFOp
